@@ -1,6 +1,7 @@
 pub mod c02;
 pub mod c03;
 pub mod c04;
+pub mod c05;
 pub mod c06;
 pub mod c11;
 pub mod c18;
@@ -9,7 +10,7 @@ pub mod histchecks;
 use crate::frame::CheckDef;
 
 pub fn all() -> Vec<CheckDef> {
-    let mut v = vec![c02::def(), c03::def(), c04::def(), c06::def(), c11::def(), c18::def()];
+    let mut v = vec![c02::def(), c03::def(), c04::def(), c05::def(), c06::def(), c11::def(), c18::def()];
     v.extend(histchecks::defs());
     v.sort_by_key(|d| d.property);
     v
